@@ -7,6 +7,10 @@ import "math"
 // steady-state coordination between Inputs and States of one Muskingum draw (Inputs is drawn first)
 var muskSteadyQ float64
 
+// StorageRouting: one coordinated stream (Params → Inputs → States) with volumes so large that rounding residues exceed
+// massBalanceLimit; the only way to reach the `maxQI <= minQI` exit of calcOutflow (unreachable in exact arithmetic).
+var srHuge bool
+
 func init() {
 	regModel(&ModelGen{Name: "Muskingum",
 		Params: func(r *Rng) []float64 {
@@ -111,6 +115,10 @@ func init() {
 	regModel(&ModelGen{Name: "StorageRouting",
 		Params: func(r *Rng) []float64 {
 			dt := []float64{86400, 86400, 3600, 43200}[r.Intn(4)]
+			srHuge = r.Chance(0.08)
+			if srHuge {
+				return []float64{0, r.LogUniform(1e3, 1e6), 1, 1e19, 0, dt}
+			}
 			var k float64
 			switch r.Intn(6) {
 			case 0:
@@ -162,6 +170,13 @@ func init() {
 			return []float64{bias, k, m, area, dead, dt}
 		},
 		Inputs: func(r *Rng, T int, p []float64) [][]float64 {
+			if srHuge { // evaporation demand exceeds everything present; no lateral inflow
+				ev := make([]float64, T)
+				for i := range ev {
+					ev[i] = r.Uniform(1, 10)
+				}
+				return [][]float64{Series(r, T, 1), make([]float64, T), make([]float64, T), ev}
+			}
 			sc := r.LogUniform(1e-4, 1e3)
 			in := Series(r, T, sc)
 			lat := Series(r, T, sc*r.LogUniform(1e-3, 1))
@@ -194,6 +209,9 @@ func init() {
 		},
 		States: func(r *Rng, p []float64) []float64 {
 			dead := p[4]
+			if srHuge {
+				return []float64{r.LogUniform(1e14, 1e17), 0, 0}
+			}
 			var s float64
 			switch r.Intn(6) {
 			case 0:
@@ -203,11 +221,7 @@ func init() {
 			case 2:
 				s = dead * r.F01()
 			case 3:
-				if r.Chance(0.25) {
-					s = r.LogUniform(1e13, 1e17) // so large that rounding residues exceed massBalanceLimit (zero-maxqi exit)
-				} else {
-					s = dead + r.LogUniform(1e-3, 1e3)
-				}
+				s = dead + r.LogUniform(1e-3, 1e3)
 			default:
 				s = dead + r.LogUniform(1, 1e7)
 			}
